@@ -1,1 +1,563 @@
+//! Runner used by every generated shard bin: evaluates the reference model on the description
+//! of a root type, compares it with what the real closed entry wrote to the recording writer,
+//! and prints the per-shard result as one JSON line on stdout.
 
+use crate::model::{EVal, Exp, Model};
+use crate::rec::{Item, Obs, Recording, Val};
+use metrique_core::concat::{Concatenated, ConstStr, MaybeConstStr, const_str_value};
+use serde_json::{Value as J, json};
+use std::borrow::Cow;
+use std::collections::{BTreeMap, BTreeSet, HashMap};
+
+pub use crate::vals::*;
+
+// ---- types for the `Concatenated` boundary sweep -------------------------------------------
+pub const FILL_A: &str = "abcdefghijklmnopqrstuvwxyzabcdefghijklmnopqrstuvwxyzabcdefghijklmnopqrstuvwxyzabcdefghijklmnopqrstuvwxyzabcdefghijklmnopqrstuvwxyz";
+pub const FILL_B: &str = "ABCDEFGHIJKLMNOPQRSTUVWXYZABCDEFGHIJKLMNOPQRSTUVWXYZABCDEFGHIJKLMNOPQRSTUVWXYZABCDEFGHIJKLMNOPQRSTUVWXYZABCDEFGHIJKLMNOPQRSTUVWXYZ";
+pub const FILL_C: &str = "0123456789012345678901234567890123456789012345678901234567890123456789012345678901234567890123456789012345678901234567890123456789";
+pub struct A<const N: usize>;
+pub struct B<const N: usize>;
+pub struct C<const N: usize>;
+impl<const N: usize> ConstStr for A<N> {
+    const VAL: &'static str = FILL_A.split_at(N).0;
+}
+impl<const N: usize> ConstStr for B<N> {
+    const VAL: &'static str = FILL_B.split_at(N).0;
+}
+impl<const N: usize> ConstStr for C<N> {
+    const VAL: &'static str = FILL_C.split_at(N).0;
+}
+
+struct Viol {
+    what: String,
+    replay: J,
+    count: u64,
+}
+
+pub struct Shard {
+    id: usize,
+    model: Model,
+    viol: BTreeMap<String, Viol>,
+    undetermined: BTreeMap<String, u64>,
+    names: BTreeSet<u64>,
+    types: BTreeSet<String>,
+    strenum_variants: BTreeSet<(String, usize)>,
+    enum_variants: BTreeSet<(String, u64)>,
+    samples: Vec<J>,
+    roots: u64,
+    struct_paths: u64,
+    enum_paths: u64,
+    items: u64,
+    sg_pairs: u64,
+    none_calls: u64,
+    heap_names: u64,
+    preserve_inherit_items: u64,
+    concat_pairs: u64,
+    concat_triples: u64,
+    concat_borrowed: u64,
+    concat_owned: u64,
+    concat_cow_unexpected: u64,
+}
+
+fn fnv(s: &str) -> u64 {
+    let mut h: u64 = 0xcbf29ce484222325;
+    for b in s.bytes() {
+        h ^= b as u64;
+        h = h.wrapping_mul(0x100000001b3);
+    }
+    h
+}
+
+enum NameMatch {
+    Exact,
+    Alt(&'static str),
+    No,
+}
+
+fn name_match(e: &Exp, actual: &str) -> NameMatch {
+    if e.name == actual {
+        return NameMatch::Exact;
+    }
+    for (a, why) in &e.alts {
+        if a == actual {
+            return NameMatch::Alt(why);
+        }
+    }
+    NameMatch::No
+}
+
+fn matches(e: &Exp, actual: &str) -> bool {
+    !matches!(name_match(e, actual), NameMatch::No)
+}
+
+fn diff_class(e: &Exp, actual: &str) -> &'static str {
+    for (c, why) in &e.diag {
+        if c == actual {
+            return why;
+        }
+    }
+    "other"
+}
+
+fn val_json(v: &Val) -> J {
+    match v {
+        Val::Nothing => json!("nothing"),
+        Val::Str(s) => json!({"string": s}),
+        Val::Metric { obs, unit, dims } => json!({"metric": format!("{obs:?}"), "unit": unit, "dims": dims}),
+        Val::Error(e) => json!({"error": e}),
+    }
+}
+
+fn eval_json(e: &Exp) -> J {
+    match &e.val {
+        EVal::Absent => json!("absent (Option::None)"),
+        EVal::Ignored => json!("ignored"),
+        EVal::Str(s) => json!({"string": s}),
+        EVal::U(u) => json!({"metric": format!("[U({u})]"), "unit": e.unit}),
+        EVal::F(f) => json!({"metric": format!("[F({f:?})]"), "unit": e.unit}),
+    }
+}
+
+impl Shard {
+    pub fn new(id: usize, shared_json: &str, shard_json: &str) -> Shard {
+        Shard {
+            id,
+            model: Model::new(&[shared_json, shard_json]),
+            viol: BTreeMap::new(),
+            undetermined: BTreeMap::new(),
+            names: BTreeSet::new(),
+            types: BTreeSet::new(),
+            strenum_variants: BTreeSet::new(),
+            enum_variants: BTreeSet::new(),
+            samples: Vec::new(),
+            roots: 0,
+            struct_paths: 0,
+            enum_paths: 0,
+            items: 0,
+            sg_pairs: 0,
+            none_calls: 0,
+            heap_names: 0,
+            preserve_inherit_items: 0,
+            concat_pairs: 0,
+            concat_triples: 0,
+            concat_borrowed: 0,
+            concat_owned: 0,
+            concat_cow_unexpected: 0,
+        }
+    }
+
+    fn violation(&mut self, key: String, what: impl FnOnce() -> (String, J)) {
+        match self.viol.get_mut(&key) {
+            Some(v) => v.count += 1,
+            None => {
+                let (what, replay) = what();
+                self.viol.insert(
+                    key,
+                    Viol {
+                        what,
+                        replay,
+                        count: 1,
+                    },
+                );
+            }
+        }
+    }
+
+    fn undet(&mut self, why: &str) {
+        *self.undetermined.entry(why.to_string()).or_insert(0) += 1;
+    }
+
+    fn name_key(e: &Exp, actual: &str) -> String {
+        let d = diff_class(e, actual);
+        if e.family == "enum-tag" {
+            format!("enum-tag:{}/{}", e.class, d)
+        } else {
+            format!("name:{}/{}", e.class, d)
+        }
+    }
+
+    fn compare_value(&mut self, root: &str, seed: u64, e: &Exp, a: &Item) {
+        let ok = match (&e.val, &a.val) {
+            (EVal::Str(x), Val::Str(y)) => {
+                if x == y {
+                    true
+                } else if let Some((_, why)) = e.val_alts.iter().find(|(alt, _)| alt == y) {
+                    self.undet(why);
+                    true
+                } else {
+                    false
+                }
+            }
+            (EVal::U(x), Val::Metric { obs, unit, dims }) => {
+                obs.len() == 1 && obs[0] == Obs::U(*x) && *unit == e.unit && dims.is_empty()
+            }
+            (EVal::F(x), Val::Metric { obs, unit, dims }) => {
+                obs.len() == 1
+                    && matches!(obs[0], Obs::F(y) if (x - y).abs() <= 1e-9 * x.abs().max(1.0))
+                    && *unit == e.unit
+                    && dims.is_empty()
+            }
+            _ => false,
+        };
+        if !ok {
+            let key = if e.family == "enum-tag" {
+                format!("enum-tag-value:{}", e.val_class)
+            } else if e.leaf == "string-enum" {
+                format!("string-enum:{}", e.val_class)
+            } else {
+                format!("value-or-unit:{}", e.leaf)
+            };
+            let (path, name) = (e.path.clone(), a.name.clone());
+            let (ev, av) = (eval_json(e), val_json(&a.val));
+            self.violation(key, || {
+                (
+                    format!("{path}: item {name:?} expected {ev} but the entry wrote {av}"),
+                    json!({"root": root, "seed": seed, "path": path, "name": name, "expected": ev, "actual": av}),
+                )
+            });
+        }
+    }
+
+    /// Compares one closed + rooted instance of `root` built from `seed`.
+    pub fn check(&mut self, root: &str, seed: u64, rec: Recording) {
+        let exp = self.model.expect(root, seed);
+        self.roots += 1;
+        self.struct_paths += exp.struct_paths;
+        self.enum_paths += exp.enum_paths;
+        for t in &exp.types_seen {
+            if !self.types.contains(t) {
+                self.types.insert(t.clone());
+            }
+        }
+        for v in &exp.strenum_variants_seen {
+            self.strenum_variants.insert(v.clone());
+        }
+        if root.starts_with('E') {
+            self.enum_variants.insert((root.to_string(), seed % 8));
+        }
+        if rec.timestamps != 0 || rec.configs != 0 {
+            let (t, c) = (rec.timestamps, rec.configs);
+            self.violation("unexpected-timestamp-or-config".into(), || {
+                (
+                    format!("{root}: {t} timestamp and {c} config calls, none declared"),
+                    json!({"root": root, "seed": seed}),
+                )
+            });
+        }
+
+        let expv: Vec<&Exp> = exp
+            .items
+            .iter()
+            .filter(|e| !matches!(e.val, EVal::Absent | EVal::Ignored))
+            .collect();
+        let calls: Vec<&Exp> = exp.items.iter().filter(|e| e.val != EVal::Ignored).collect();
+        if calls.len() == rec.items.len() {
+            // one `value()` call per non-ignored field: compare position by position, so that a
+            // wrong name cannot shift the alignment of what follows
+            for (idx, (e, a)) in calls.iter().zip(rec.items.iter()).enumerate() {
+                match (&e.val, &a.val) {
+                    (EVal::Absent, Val::Nothing) => self.none_calls += 1,
+                    (EVal::Absent, _) => {
+                        let (path, name, av) = (e.path.clone(), a.name.clone(), val_json(&a.val));
+                        self.violation("option-none-emitted".into(), || {
+                            (
+                                format!("{path}: Option::None must contribute nothing but item {name:?} = {av} was written"),
+                                json!({"root": root, "seed": seed, "path": path, "name": name, "actual": av}),
+                            )
+                        });
+                    }
+                    (_, Val::Nothing) => {
+                        let (path, name) = (e.path.clone(), e.name.clone());
+                        self.violation(format!("missing-item:{}", e.leaf), || {
+                            (
+                                format!("{path}: expected item {name:?}, the field wrote nothing"),
+                                json!({"root": root, "seed": seed, "path": path, "expected_name": name}),
+                            )
+                        });
+                    }
+                    _ => self.matched_or_named(root, seed, idx, e, a),
+                }
+            }
+        } else {
+            self.resync(root, seed, &exp, &expv, &rec);
+        }
+
+        // sample-group pairs (N10)
+        let sgx: Vec<&Exp> = expv.iter().copied().filter(|e| e.sg.is_some()).collect();
+        if sgx.len() != rec.sample_group.len() {
+            let (n, m) = (sgx.len(), rec.sample_group.len());
+            let got = rec.sample_group.clone();
+            self.violation("sample-group-count".into(), || {
+                (
+                    format!("{root}: {n} sample_group fields declared, {m} pairs returned"),
+                    json!({"root": root, "seed": seed, "pairs": got}),
+                )
+            });
+        }
+        for (e, (k, v)) in sgx.iter().zip(rec.sample_group.iter()) {
+            self.sg_pairs += 1;
+            let kind = if e.family == "enum-tag" {
+                format!("tag-{}", e.class.split('/').next().unwrap_or(""))
+            } else {
+                e.leaf.clone()
+            };
+            match name_match(e, k) {
+                NameMatch::Exact => {}
+                NameMatch::Alt(why) => self.undet(why),
+                NameMatch::No => {
+                    let d = diff_class(e, k);
+                    let (path, want, got) = (e.path.clone(), e.name.clone(), k.clone());
+                    self.violation(format!("sample-group-name:{kind}/{d}"), || {
+                        (
+                            format!("{path}: documented (and item) name {want:?} but sample_group() names it {got:?}"),
+                            json!({"root": root, "seed": seed, "path": path, "expected_name": want, "actual_name": got}),
+                        )
+                    });
+                }
+            }
+            let want = e.sg.as_ref().unwrap();
+            if want != v {
+                if let Some((_, why)) = e.val_alts.iter().find(|(alt, _)| alt == v) {
+                    let why = *why;
+                    self.undet(why);
+                } else {
+                    let (path, want, got) = (e.path.clone(), want.clone(), v.clone());
+                    self.violation(format!("sample-group-value:{kind}"), || {
+                        (
+                            format!("{path}: sample_group value {got:?}, emitted value {want:?}"),
+                            json!({"root": root, "seed": seed, "path": path, "expected": want, "actual": got}),
+                        )
+                    });
+                }
+            }
+        }
+    }
+
+    /// `e` and `a` are at the same position: check the name, then the value.
+    fn matched_or_named(&mut self, root: &str, seed: u64, idx: usize, e: &Exp, a: &Item) {
+        match name_match(e, &a.name) {
+            NameMatch::No => {
+                let key = Self::name_key(e, &a.name);
+                let (path, want, got, class) = (e.path.clone(), e.name.clone(), a.name.clone(), e.leaf.clone());
+                self.violation(key, || {
+                    (
+                        format!("{path}: documented name {want:?}, emitted {got:?}"),
+                        json!({"root": root, "seed": seed, "path": path, "leaf": class, "expected_name": want, "actual_name": got}),
+                    )
+                });
+            }
+            NameMatch::Alt(why) => self.undet(why),
+            NameMatch::Exact => {}
+        }
+        self.items += 1;
+        if e.preserve_inherits {
+            self.preserve_inherit_items += 1;
+        }
+        if !a.borrowed {
+            self.heap_names += 1;
+        }
+        if a.name != e.bare {
+            self.names.insert(fnv(&a.name));
+            let deep = e.path.contains("prefix=") && (e.path.matches('>').count() >= 2 || e.family == "enum-tag");
+            if self.samples.len() < 4 && deep && (seed + idx as u64) % 11 == 3 {
+                self.samples.push(json!({
+                    "configuration": e.path, "class": e.class, "expected_name": e.name,
+                    "actual_name": a.name, "actual_value": val_json(&a.val),
+                    "name_is_const_str": a.borrowed,
+                }));
+            }
+        }
+        self.compare_value(root, seed, e, a);
+    }
+
+    /// The number of `value()` calls differs from the number of non-ignored fields: align the
+    /// emitted (non-empty) items with the expected ones by name, with a bounded look-ahead.
+    fn resync(&mut self, root: &str, seed: u64, exp: &crate::model::Expectation, expv: &[&Exp], rec: &Recording) {
+        let mut ghosts: HashMap<&str, &Exp> = HashMap::new();
+        for e in exp.items.iter().filter(|e| matches!(e.val, EVal::Absent | EVal::Ignored)) {
+            ghosts.insert(e.name.as_str(), e);
+            for (a, _) in &e.alts {
+                ghosts.insert(a.as_str(), e);
+            }
+        }
+        let mut act: Vec<&Item> = Vec::new();
+        for it in &rec.items {
+            if it.val == Val::Nothing {
+                self.none_calls += 1;
+            } else {
+                act.push(it);
+            }
+        }
+        const W: usize = 64;
+        let mut seen: HashMap<&str, u32> = HashMap::new();
+        let (mut i, mut j) = (0usize, 0usize);
+        while i < expv.len() && j < act.len() {
+            let e = expv[i];
+            let a = act[j];
+            if matches(e, &a.name) {
+                self.matched_or_named(root, seed, i, e, a);
+                *seen.entry(a.name.as_str()).or_insert(0) += 1;
+                i += 1;
+                j += 1;
+                continue;
+            }
+            let later_expected = expv[i + 1..expv.len().min(i + 1 + W)].iter().any(|x| matches(x, &a.name));
+            if !later_expected {
+                if let Some(g) = ghosts.get(a.name.as_str()) {
+                    let key = if g.val == EVal::Absent { "option-none-emitted" } else { "ignored-field-emitted" };
+                    let (path, name, av) = (g.path.clone(), a.name.clone(), val_json(&a.val));
+                    self.violation(key.to_string(), || {
+                        (
+                            format!("{path}: must contribute nothing but item {name:?} = {av} was written"),
+                            json!({"root": root, "seed": seed, "path": path, "name": name, "actual": av}),
+                        )
+                    });
+                    j += 1;
+                    continue;
+                }
+            }
+            let later_actual = act[j + 1..act.len().min(j + 1 + W)].iter().any(|y| matches(e, &y.name));
+            if later_expected && !later_actual {
+                let (path, name) = (e.path.clone(), e.name.clone());
+                self.violation(format!("missing-item:{}", e.leaf), || {
+                    (
+                        format!("{path}: expected item {name:?} was not written"),
+                        json!({"root": root, "seed": seed, "path": path, "expected_name": name}),
+                    )
+                });
+                i += 1;
+                continue;
+            }
+            if later_actual && !later_expected {
+                let dup = seen.contains_key(a.name.as_str());
+                let key = if dup { "duplicate-item" } else { "unexpected-item" };
+                let (name, av, near) = (a.name.clone(), val_json(&a.val), e.path.clone());
+                self.violation(key.to_string(), || {
+                    (
+                        format!("item {name:?} = {av} written before {near} has no field behind it"),
+                        json!({"root": root, "seed": seed, "name": name, "actual": av, "before": near}),
+                    )
+                });
+                *seen.entry(a.name.as_str()).or_insert(0) += 1;
+                j += 1;
+                continue;
+            }
+            self.matched_or_named(root, seed, i, e, a);
+            *seen.entry(a.name.as_str()).or_insert(0) += 1;
+            i += 1;
+            j += 1;
+        }
+        while i < expv.len() {
+            let e = expv[i];
+            let (path, name) = (e.path.clone(), e.name.clone());
+            self.violation(format!("missing-item:{}", e.leaf), || {
+                (
+                    format!("{path}: expected item {name:?} was not written"),
+                    json!({"root": root, "seed": seed, "path": path, "expected_name": name}),
+                )
+            });
+            i += 1;
+        }
+        while j < act.len() {
+            let a = act[j];
+            let key = if let Some(g) = ghosts.get(a.name.as_str()) {
+                if g.val == EVal::Absent { "option-none-emitted" } else { "ignored-field-emitted" }
+            } else if seen.contains_key(a.name.as_str()) {
+                "duplicate-item"
+            } else {
+                "unexpected-item"
+            };
+            let (name, av) = (a.name.clone(), val_json(&a.val));
+            self.violation(key.to_string(), || {
+                (
+                    format!("trailing item {name:?} = {av} has no field behind it"),
+                    json!({"root": root, "seed": seed, "name": name, "actual": av}),
+                )
+            });
+            j += 1;
+        }
+    }
+
+    fn concat_check(&mut self, got: Cow<'static, str>, want: String, const_expected: bool, shape: &str) {
+        let borrowed = matches!(got, Cow::Borrowed(_));
+        if borrowed {
+            self.concat_borrowed += 1;
+        } else {
+            self.concat_owned += 1;
+        }
+        if borrowed != const_expected {
+            self.concat_cow_unexpected += 1;
+        }
+        if got != want {
+            let len = want.len();
+            let g = got.to_string();
+            self.violation(format!("concat-boundary:{len}"), || {
+                (
+                    format!("const_str_value::<{shape}> of total length {len}: got {g:?} (len {})", g.len()),
+                    json!({"shape": shape, "expected": want, "actual": g, "borrowed": borrowed}),
+                )
+            });
+        }
+        self.names.insert(fnv(&got));
+    }
+
+    pub fn concat2<S: MaybeConstStr, T: MaybeConstStr>(&mut self, a: usize, b: usize) {
+        self.concat_pairs += 1;
+        let want = format!("{}{}", &FILL_A[..a], &FILL_B[..b]);
+        self.concat_check(
+            const_str_value::<Concatenated<S, T>>(),
+            want,
+            a + b <= 100,
+            &format!("Concatenated<A<{a}>, B<{b}>>"),
+        );
+    }
+
+    pub fn concat3<S: MaybeConstStr, T: MaybeConstStr, U: MaybeConstStr>(&mut self, a: usize, b: usize, c: usize) {
+        self.concat_triples += 1;
+        let want = format!("{}{}{}", &FILL_A[..a], &FILL_B[..b], &FILL_C[..c]);
+        self.concat_check(
+            const_str_value::<Concatenated<Concatenated<S, T>, U>>(),
+            want.clone(),
+            a + b + c <= 100,
+            &format!("Concatenated<Concatenated<A<{a}>, B<{b}>>, C<{c}>>"),
+        );
+        self.concat_check(
+            const_str_value::<Concatenated<S, Concatenated<T, U>>>(),
+            want,
+            a + b + c <= 100,
+            &format!("Concatenated<A<{a}>, Concatenated<B<{b}>, C<{c}>>>"),
+        );
+    }
+
+    /// Prints the shard result (one JSON line) and exits 0.
+    pub fn finish(self) -> ! {
+        let viol: Vec<J> = self
+            .viol
+            .iter()
+            .map(|(k, v)| json!({"key": k, "what": v.what, "replay": v.replay, "count": v.count}))
+            .collect();
+        let out = json!({
+            "shard": self.id,
+            "roots": self.roots,
+            "struct_paths": self.struct_paths,
+            "enum_paths": self.enum_paths,
+            "items_compared": self.items,
+            "sample_group_pairs_compared": self.sg_pairs,
+            "option_none_calls": self.none_calls,
+            "heap_built_names": self.heap_names,
+            "preserve_inherit_items": self.preserve_inherit_items,
+            "undetermined": self.undetermined,
+            "violations": viol,
+            "name_hashes": self.names.iter().collect::<Vec<_>>(),
+            "types": self.types.iter().collect::<Vec<_>>(),
+            "strenum_variants": self.strenum_variants.len(),
+            "root_enum_variants": self.enum_variants.len(),
+            "samples": self.samples,
+            "concat": {"pairs": self.concat_pairs, "triples": self.concat_triples,
+                       "borrowed": self.concat_borrowed, "owned": self.concat_owned,
+                       "cow_kind_unexpected": self.concat_cow_unexpected},
+        });
+        println!("C07-SHARD-RESULT {out}");
+        std::process::exit(0)
+    }
+}
